@@ -76,6 +76,8 @@ def alphabet(tier):
         {"s": "env", "op": "latent", "m": "INBOX", "then": {"s": "env", "op": "poll", "dt": 21.0}},
         {"s": "env", "op": "restart"},
         {"s": A, "op": "rename", "m": "a", "to": "c"},
+        # every message leaves INBOX at once, without an EXPUNGE by anybody; the numbering of files starts again while UIDs go on
+        {"s": A, "op": "rename", "m": "INBOX", "to": "old"},
         {"s": A, "op": "select", "m": "INBOX"},
         {"s": B, "op": "select", "m": "INBOX"},
         {"s": B, "op": "noop"},
